@@ -1,7 +1,8 @@
 (* L-rec model side for C06.
    Case: <hex input> <ext bits> <cfg 0=before the repairs|1=repaired> <events...> OR <oracles...>
    (events and oracles exactly as printed by harness/src/bin/analysis.rs).
-   Prints `R valid=<b> <structure>` | `R none` | `R panic<site>`, plus ` ;; G <0|1>` = the
+   Prints `R valid=<b> <structure>` | `R none` | `R panic<site>` (a quantity of the structure is one token
+   `<t|n><f|l><unit hex or ->:<value>`, value = `n:<m>:<e>` | `r:<m>:<e>:<m>:<e>` | `t:<hex>`), plus ` ;; G <0|1>` = the
    event sequence is parser_shaped, plus ` ;; P <0|1|->` = the decision procedure of the C06
    statement (recipe_ok_b, and valid_tbl_b of both tables when valid; proved equivalent to
    recipe_ok / valid_tbl in Proofs/AnalysisProofs.v) on the model's recipe.
@@ -126,10 +127,33 @@ let p_oracles () =
 (* ---- dump, token for token the format of harness/src/bin/analysis.rs ---- *)
 let opt_hex (o : n list option) : string = match o with Some s -> hex_of_str s | None -> "-"
 
+(* a rational m * 2^e as "m:e" with m odd ("0:0" for 0): the form vh::f64_exact gives an f64.  The
+   events of a case hold the implementation's f64 values exactly ([p_num]), the collector copies them, so
+   every number of the model's recipe has this form; any other rational is printed "num/den" and can
+   equal no token of the harness. *)
+let rec pos_tz (p : positive) : int * positive =
+  match p with XO r -> let (k, m) = pos_tz r in (k + 1, m) | _ -> (0, p)
+
+let m_e_of_q (x : q) : string =
+  match x.qnum with
+  | Z0 -> "0:0"
+  | Zpos p | Zneg p ->
+      let sign = (match x.qnum with Zneg _ -> "-" | _ -> "") in
+      let (kn, mn) = pos_tz p in
+      let (kd, md) = pos_tz x.qden in
+      if md = XH then sign ^ string_of_pos mn ^ ":" ^ string_of_int (kn - kd) else string_of_q x
+
+let value_s (v : pvalue) : string =
+  match v with
+  | VNumber a -> "n:" ^ m_e_of_q a
+  | VRange (a, b) -> "r:" ^ m_e_of_q a ^ ":" ^ m_e_of_q b
+  | VText t -> "t:" ^ hex_of_str t
+
 let qinfo_s (q : qinfo option) : string =
   match q with
   | None -> "-"
-  | Some q -> (if q.qi_text then "t" else "n") ^ (if q.qi_fixed then "f" else "l") ^ opt_hex q.qi_unit
+  | Some q ->
+      (if q.qi_text then "t" else "n") ^ (if q.qi_fixed then "f" else "l") ^ opt_hex q.qi_unit ^ ":" ^ value_s q.qi_value
 
 let rel_s (r : relation) : string =
   match r with
@@ -177,9 +201,19 @@ let p_qinfo () : qinfo option =
   let t = next () in
   if t = "-" then None
   else
-    let u = String.sub t 2 (String.length t - 2) in
-    Some { qi_text = (t.[0] = 't'); qi_fixed = (t.[1] = 'f');
-           qi_unit = (if u = "-" then None else Some (str_of_hex u)) }
+    let f = Array.of_list (String.split_on_char ':' t) in
+    let hd = f.(0) in
+    let u = String.sub hd 2 (String.length hd - 2) in
+    let nm (i : int) : q =
+      if f.(i) = "nan" || f.(i) = "inf" || f.(i) = "-inf" then { qnum = Z0; qden = XH }
+      else q_of_m_e f.(i) (int_of_string f.(i + 1)) in
+    let v = match f.(1) with
+      | "n" -> VNumber (nm 2)
+      | "r" -> VRange (nm 2, nm 4)
+      | "t" -> VText (str_of_hex f.(2))
+      | _ -> failwith "bad recipe value kind" in
+    Some { qi_text = (hd.[0] = 't'); qi_fixed = (hd.[1] = 'f');
+           qi_unit = (if u = "-" then None else Some (str_of_hex u)); qi_value = v }
 
 let p_rel () : relation =
   let t = next () in
